@@ -225,7 +225,7 @@ static long count_or_run(int depth, int live, op_t *cur, int len, long *idx, lon
             char cs[400]; int o = snprintf(cs, sizeof cs, "pat=%d mem=%d ops=", P_, MEM_); for (int k = 0; k < len; k++) { o += op_str(&cur[k], cs + o); if (k + 1 < len) cs[o++] = ','; } cs[o] = 0;
             int fa; G->hist++;
             if (!strcmp(PROP, "C18")) {
-                unsigned long long hp; run_history(P_, MEM_, cur, len, cs, &fa); hp = run_probe(P_, MEM_); G->judged++;
+                unsigned long long hp; unsigned long long hh = run_history(P_, MEM_, cur, len, cs, &fa); note_distinct(hmix(hh, *idx)); hp = run_probe(P_, MEM_); G->judged++;
                 if (hp != PROBE_REF[MEM_]) { char sig[64]; snprintf(sig, sizeof sig, "C18:probe-differs:after-%c:mem%d", cur[len - 1].kind, MEM_); viol(sig, cs, "probe (first factorization + 2 solves) after this history is not bit-identical to the same probe in a fresh process"); }
             } else {
                 unsigned long long h = run_history(P_, MEM_, cur, len, cs, &fa);
